@@ -149,11 +149,81 @@ def r_order(ctx):
             ctx.incomplete_msg(rid, "%s does not iterate cddl.rules with .iter() any more: the iteration idiom is not recognised" % fn)
 
 
+
+def r_aliasincr(ctx):
+    """the prelude classification of a name follows every rule that defines the name, base rule and /= increments alike"""
+    import c05
+    import absint
+    from absint import Interp, Return, Unknown
+    rid = "C08.aliasincr"
+    ctx.rule(rid, "the classification predicates of validator/mod.rs (is_ident_*_data_type, through their shared alias traversal) treat a type "
+                  "that is spelled as a base rule plus `/=` increments, or by increments only, like the single rule with the same choices: "
+                  "`a = tstr` + `a /= uint` and `a = b`, `b /= uint` are integer-classed exactly as `a = tstr / uint` is (abstract "
+                  "evaluation of the predicates on those schemas, every crate function they call interpreted)", floor=6)
+    f = ctx.facts
+    A = c05._cyc_ast()
+    ident, t2name, trule, cddl = A["ident"], A["t2name"], A["trule"], A["cddl"]
+
+    def incr(rule):
+        r = ("enum", rule[1], dict(rule[2]))
+        tr = ("enum", "TypeRule", dict(rule[2]["rule"][2]))
+        tr[2]["is_type_choice_alternate"] = True
+        r[2]["rule"] = tr
+        return r
+    cfg = absint.default_cfg
+    free = {}
+    for fi in f.fns(MOD):
+        if fi.impl_self is None and not fi.in_test and all(cfg(c) for c in fi.cfg):
+            free.setdefault(fi.name, fi)
+    schemas = {
+        "a = tstr / uint": (cddl(trule("a", t2name("tstr"), t2name("uint"))), True),
+        "a = tstr, a /= uint": (cddl(trule("a", t2name("tstr")), incr(trule("a", t2name("uint")))), True),
+        "a /= tstr, a /= uint (increments only)": (cddl(incr(trule("a", t2name("tstr"))), incr(trule("a", t2name("uint")))), True),
+        "a = b, b /= uint": (cddl(trule("a", t2name("b")), incr(trule("b", t2name("uint")))), True),
+        "a = b, b = tstr, b /= c, c = uint": (cddl(trule("a", t2name("b")), trule("b", t2name("tstr")), incr(trule("b", t2name("c"))), trule("c", t2name("uint"))), True),
+        "a = tstr, a /= bool": (cddl(trule("a", t2name("tstr")), incr(trule("a", t2name("bool")))), False),
+    }
+    pred = None
+    for name in ("is_ident_uint_data_type", "is_ident_integer_data_type"):
+        if name in free:
+            pred = free[name]
+            break
+    if pred is None:
+        raise vf.Incomplete("no integer classification predicate found in %s" % MOD)
+    holder = [None]
+
+    def on_call(kind, nm, node, args, recv):
+        if kind == "fn" and nm:
+            base = nm.split("::")[-1]
+            if base in free and (len(nm.split("::")) == 1 or nm.split("::")[0] in ("crate", "super", "self")):
+                return (absint.CURRENT or holder[0]).call_fn_node(free[base].node, args)
+            if base == "lookup_ident":
+                t = args[0][1] if isinstance(args[0], tuple) and args[0][:1] == ("str",) else None
+                return ("enum", {"uint": "Token::UINT", "tstr": "Token::TSTR", "bool": "Token::BOOL"}.get(t, "Token::IDENT"), [])
+        return NotImplemented
+    for label, (schema, want) in schemas.items():
+        it = Interp(env={}, cfg=cfg, on_call=on_call, max_steps=100000)
+        it.fn_items = lambda nm: nm in free
+        holder[0] = it
+        try:
+            res = it.call_fn_node(pred.node, [schema, ident("a")])
+        except Unknown as e:
+            ctx.incomplete_msg(rid, "%s: %s" % (label, e))
+            continue
+        ctx.site(rid, label, MOD, pred.line, {"predicate": pred.name, "result": repr(res), "expected": want})
+        if not isinstance(res, bool):
+            ctx.incomplete_msg(rid, "%s: %s returned %r" % (label, pred.name, res))
+        elif res != want:
+            ctx.violation(rid, "incr|%s" % ("missed" if want else "extra"), MOD, pred.line, "%s(a) is %r on the schema `%s` but %r on `a = tstr / uint`: "
+                          "spelling a choice with `/=` increments changes how the name is classified" % (pred.name, res, label, want))
+
+
 def run(ctx):
     import common_val as cv
     ctx.guarded("C08.nameeq", r_nameeq)
     ctx.guarded("C08.restore", r_restore)
     ctx.guarded("C08.order", r_order)
+    ctx.guarded("C08.aliasincr", r_aliasincr)
     ctx.guarded("C08.ctrlrestore.json", lambda c: cv.ctrlrestore_rule(c, "C08j", "json"))
     ctx.guarded("C08.ctrlrestore.cbor", lambda c: cv.ctrlrestore_rule(c, "C08c", "cbor"))
     ctx.guarded("C08.argctx.json", lambda c: cv.argctx_rule(c, "C08j", "json"))
